@@ -257,7 +257,13 @@ func valKey(v ssa.Value) string {
 	return fmt.Sprintf("%p", v)
 }
 
-func Normalize(v ssa.Value) NormCond {
+func Normalize(v ssa.Value) NormCond { return normalizeWith(v, Expr) }
+
+// NormalizeDeep renders operands with call arguments (to tell apart several
+// tests of the same callee, e.g. strings.HasPrefix(req.Path, "auth/token/")).
+func NormalizeDeep(v ssa.Value) NormCond { return normalizeWith(v, ExprDeep) }
+
+func normalizeWith(v ssa.Value, Expr func(ssa.Value) string) NormCond {
 	pol := true
 	for {
 		if u, ok := v.(*ssa.UnOp); ok && u.Op == token.NOT {
